@@ -35,7 +35,29 @@
 #include "montgomery-ruint.h"
 #include <recint/recint.h>
 
+#include <signal.h>
+#include <unistd.h>
+#include <sys/time.h>
 using namespace Givaro;
+
+// ---------------------------------------------------------------- per-case CPU watchdog (as in c17_array0.C): a case = one block on one operand pair (all rounds)
+static volatile long g_case = 0, g_case_seen = -1;
+static char g_case_name[1200] = "";
+static void on_prof(int) {
+    if (g_case_seen == g_case) {
+        static const char msg[] = "\nDOES-NOT-RETURN ";
+        if (write(1, msg, sizeof msg - 1) < 0) {}
+        if (write(1, g_case_name, strlen(g_case_name)) < 0) {}
+        if (write(1, "\n", 1) < 0) {}
+        _exit(97);
+    }
+    g_case_seen = g_case;
+}
+static void start_watchdog() {
+    const char* b = getenv("C17_CPU_BUDGET"); long sec = b ? atol(b) : 20; if (sec <= 0) return;
+    struct sigaction sa; memset(&sa, 0, sizeof sa); sa.sa_handler = on_prof; sigaction(SIGPROF, &sa, 0);
+    struct itimerval it; it.it_interval.tv_sec = sec; it.it_interval.tv_usec = 0; it.it_value = it.it_interval; setitimer(ITIMER_PROF, &it, 0);
+}
 
 // ---------------------------------------------------------------- the four balances
 static long g_gmp_blocks = 0, g_gmp_bytes = 0, g_new_blocks = 0, g_heap_blocks = 0, g_heap_bytes = 0;
@@ -192,6 +214,8 @@ template <size_t K> static int check_values(const Integer& x, std::string& why) 
 
 int main() {
     mp_set_memory_functions(c_alloc, c_realloc, c_free);
+    start_watchdog();
+    const char* only = getenv("C17_ONLY_BLOCK");
     std::vector<Integer> ops; g_ops = &ops;
     build_blocks();
     std::string line;
@@ -204,8 +228,10 @@ int main() {
             std::ostringstream out;     // (built before the measurements start; printed at the end)
             for (size_t b = 0; b < g_blocks.size(); ++b) {
                 long bad = 0;
+                if (only && strcmp(only, g_blocks[b].name) != 0) continue;
                 for (size_t i = 0; i < ops.size(); ++i) {
                     const Integer& x = ops[i]; const Integer& y = ops[(i * 7 + 3) % ops.size()];
+                    { std::ostringstream nm; nm << g_blocks[b].name << " | x=" << x << " y=" << y; std::string n2 = nm.str(); ++g_case; strncpy(g_case_name, n2.c_str(), sizeof g_case_name - 1); }
                     Snap d[ROUNDS];
                     bool threw = false;
                     for (int r = 0; r < ROUNDS; ++r) {
